@@ -171,7 +171,8 @@ func (c *Cluster) checkC04(n *SimNode) {
 			itxs += len(de.Body.InternalTransactions)
 			// (iv) the event's own round-received says r
 			if ev, err := store.GetEvent(hash); err == nil {
-				if rr := ev.SimRoundReceived(); rr != r {
+				// (an event reloaded from the database has lost this derived field: -1 says nothing)
+				if rr := ev.SimRoundReceived(); rr >= 0 && rr != r {
 					c.violate("C04", "frame-is-round-received", "round-received-mismatch", "node %d: event %s is in frame %d but its round-received is %d", n.idx, short(hash), r, rr)
 					return
 				}
